@@ -145,7 +145,7 @@ def gen_env(rng, srcs):
     if rng.random() < 0.25:
         env["config_text"] = sorted(rng.sample(["bool10", "comment", "nodecl", "crlf", "bom"], rng.choice([1, 1, 2, 3])))
     if rng.random() < 0.25:
-        env["source_spelling"] = rng.choice(["rel", "dot", "slash", "dotdot"])
+        env["source_spelling"] = rng.choice(["rel", "dot", "slash", "dotdot", "uri"])
     if rng.random() < 0.1:
         env["optimize"] = 1  # python -O
     if rng.random() < 0.12:
